@@ -195,6 +195,7 @@ class Connection:
     transport: PhysicalTransport
     link_type: int
     classic_allow_role_switch: bool = False
+    le_remote_features_read_pending: bool = False
 
     def __post_init__(self) -> None:
         self.assembler = hci.HCI_AclDataPacketAssembler(self.on_acl_pdu)
@@ -637,6 +638,7 @@ class Controller:
                     )
                 )
             case ll.FeatureRsp(feature_set):
+                connection.le_remote_features_read_pending = False
                 self.send_hci_packet(
                     hci.HCI_LE_Read_Remote_Features_Complete_Event(
                         status=hci.HCI_ErrorCode.SUCCESS,
@@ -740,6 +742,17 @@ class Controller:
             else:
                 # Request not answered by the host yet
                 del self.peripheral_cis_links[cis_link.handle]
+
+        if connection.le_remote_features_read_pending:
+            # Requested with LE Read Remote Features, the peer will never answer
+            connection.le_remote_features_read_pending = False
+            self.send_hci_packet(
+                hci.HCI_LE_Read_Remote_Features_Complete_Event(
+                    status=reason,
+                    connection_handle=connection.handle,
+                    le_features=bytes(8),
+                )
+            )
 
         # Send a disconnection complete event
         self.send_hci_packet(
@@ -2465,6 +2478,7 @@ class Controller:
 
         # First, say that the command is pending
         self._send_hci_command_status(hci.HCI_COMMAND_STATUS_PENDING, command.op_code)
+        connection.le_remote_features_read_pending = True
 
         if connection.role == hci.Role.CENTRAL:
             connection.send_ll_control_pdu(
